@@ -16,7 +16,6 @@ package fragmentation
 
 import (
 	"container/heap"
-	"fmt"
 	"math"
 	"sync"
 	"time"
@@ -106,7 +105,12 @@ func (r *reassembler) process(first, last uint16, more bool, vv buffer.Vectorise
 	}
 	res, err := r.heap.reassemble()
 	if err != nil {
-		panic(fmt.Sprintf("reassemble failed with: %v. There is probably a bug in the code handling the holes.", err))
+		// The fragments received contradict each other (e.g. two different
+		// "last" fragments, or one that covers only part of a hole and claims to
+		// be the end): the hole list says complete but the data has a gap. This
+		// is input from the network, not a programming error: drop what we have;
+		// the reassembler is released by the timeout/eviction logic.
+		return buffer.VectorisedView{}, false, consumed
 	}
 	return res, true, consumed
 }
